@@ -3,6 +3,8 @@
 use lazy_static::lazy_static;
 
 mod maxvaluetrack;
+#[cfg(probminhash_verif)]
+pub use maxvaluetrack::verif_hooks;
 
 pub mod jaccard;
 
